@@ -48,6 +48,18 @@ pub fn cases(thorough: bool, seed: u64) -> Vec<Params> {
             out.push(Params { n, t, ids: IdSet::Default, subset: (0..t as usize).collect(), variant: V_STRUCT, aux, seed });
         }
     }
+    // large signer sets (code paths specialised by size): everybody signs, the shares at three
+    // positions (first, middle, last: aux = bitmask over positions) are adversarial, the rest honest
+    for (n, t) in crate::large_pairs(thorough) {
+        if n > 40 {
+            continue;
+        }
+        let k = n as u64;
+        let mask = 1u64 | (1 << (k / 2)) | (1 << (k - 1));
+        for v in [V_DISABLED, V_FIRST, V_ALL, V_STANDALONE] {
+            out.push(Params { n, t, ids: IdSet::Default, subset: (0..n as usize).collect(), variant: v, aux: mask, seed });
+        }
+    }
     out
 }
 
@@ -67,11 +79,17 @@ pub fn run<C: Ciphersuite, L: Lab<C>>(lab: &mut L, p: &Params) {
     let mut submitted = BTreeMap::new();
     let mut zs: BTreeMap<Identifier<C>, (frost_core::Scalar<C>, frost_core::Scalar<C>)> = BTreeMap::new();
     for (j, id) in sess.signers.iter().enumerate() {
+        if p.aux != 0 && p.aux & (1 << j) == 0 {
+            // large sets: this signer submits its honest share
+            submitted.insert(*id, honest[id]);
+            zs.insert(*id, (honest[id].share().0, honest[id].share().0));
+            continue;
+        }
         // replay candidates: the honest value first, then every honest share and every earlier
         // submitted share (a counter-model of the form "honest value plus the error another
         // signer introduced" is replayed as that combination of concrete values)
         let mut cands = vec![honest[id].share().0];
-        for other in sess.signers.iter().filter(|o| *o != id) {
+        for other in sess.signers.iter().filter(|o| *o != id).take(4) {
             cands.push(honest[other].share().0);
         }
         for earlier in sess.signers.iter().take(j) {
